@@ -640,6 +640,18 @@ Fixpoint no_shared_cofactor_powers (e : expr) : bool :=
   | Add a b | Sub a b | Mul a b | Div a b | Pow a b => no_shared_cofactor_powers a && no_shared_cofactor_powers b
   end.
 Definition guard_shared (s : str) : bool := match parse s with Some e => no_shared_cofactor_powers e | None => true end.
+(* F6: index_range with literal bounds that select exactly one element (a one-element slice written into a one-element state
+   variable: the generated `dy[k] = ...` receives a sequence) *)
+Fixpoint no_unit_slice (e : expr) : bool :=
+  match e with
+  | Num _ _ | Var _ => true
+  | Neg a => no_unit_slice a
+  | Add a b | Sub a b | Mul a b | Div a b | Pow a b => no_unit_slice a && no_unit_slice b
+  | Call f [Var _; Num i []; Num j []] =>
+      negb (is_f f "index_range" && (nat_of_digits j =? S (nat_of_digits i))%nat)
+  | Call _ args => (fix all (l : list expr) : bool := match l with [] => true | a :: r => no_unit_slice a && all r end) args
+  end.
+Definition guard_unit_slice (s : str) : bool := match parse s with Some e => no_unit_slice e | None => true end.
 Definition guard_divisor (s : str) : bool := match parse s with Some e => no_call_in_divisor e | None => true end.
 Definition guard_chain (dup s : str) : bool := match parse s with Some e => no_label_chain dup e | None => true end.
 
